@@ -8,8 +8,12 @@ import (
 	"fmt"
 	"reflect"
 
+	"github.com/Eyevinn/mp4ff/avc"
+	"github.com/Eyevinn/mp4ff/hevc"
 	"github.com/Eyevinn/mp4ff/sei"
 )
+
+var c17NaluJudged int
 
 func init() {
 	register("c17-replay", c17Replay)
@@ -91,6 +95,47 @@ func c17Replay(args []string) error {
 							rep.Violation(fmt.Sprintf("sei/passthrough/type%d", t), "pass-through message does not return its payload unchanged", cs)
 						}
 					}
+				}
+			}
+			// Z4: the codec packages' SEI NAL unit parsers (NAL header + sei_rbsp) return one message per written message,
+			// in order, with the written type; messages without a typed decoder keep their payload
+			for _, cd := range []struct {
+				name  string
+				hdr   []byte
+				typed map[uint]bool
+				parse func([]byte) ([]sei.SEIMessage, error)
+			}{
+				{"avc", []byte{0x06}, map[uint]bool{1: true, 4: true, 5: true}, func(n []byte) ([]sei.SEIMessage, error) { return avc.ParseSEINalu(n, nil) }},
+				{"hevc", []byte{0x4e, 0x01}, map[uint]bool{4: true, 5: true, 136: true, 137: true, 144: true}, func(n []byte) ([]sei.SEIMessage, error) { return hevc.ParseSEINalu(n, nil) }},
+			} {
+				var ms []sei.SEIMessage
+				var perr error
+				func() {
+					defer func() {
+						if r := recover(); r != nil {
+							perr = fmt.Errorf("panic: %v", r)
+							rep.Violation("sei/nalu/"+cd.name+"/panic", "ParseSEINalu panics on written messages", cs)
+						}
+					}()
+					ms, perr = cd.parse(append(append([]byte{}, cd.hdr...), buf.Bytes()...))
+				}()
+				if perr != nil {
+					continue // a typed decoder refuses the generated payload: nothing to compare
+				}
+				c17NaluJudged++
+				okN := len(ms) == len(c.Msgs)
+				for i := 0; okN && i < len(ms); i++ {
+					okN = ms[i] != nil && ms[i].Type() == c.Msgs[i].Type &&
+						(cd.typed[c.Msgs[i].Type] || bytes.Equal(ms[i].Payload(), ints2bytes(c.Msgs[i].Payload)))
+				}
+				if !okN {
+					var gd []string
+					for _, g := range ms {
+						if g != nil {
+							gd = append(gd, fmt.Sprintf("type=%d size=%d", g.Type(), len(g.Payload())))
+						}
+					}
+					rep.Violation("sei/nalu/"+cd.name+"/roundtrip", cd.name+".ParseSEINalu returns a (type, payload) list that differs from the list written", J{"msgs": desc, "observed": gd})
 				}
 			}
 			var smp interface{}
@@ -179,9 +224,9 @@ func c17Replay(args []string) error {
 		case "pictiming":
 			var c struct {
 				Pt struct {
-					Delays                              bool
+					Delays                               bool
 					Cpblen, Dpblen, Cpb, Dpb, Pictstruct int
-					Clocks                              []seiClock
+					Clocks                               []seiClock
 				} `json:"pt"`
 				Nbits   int   `json:"nbits"`
 				Payload []int `json:"payload"`
@@ -259,6 +304,7 @@ func c17Replay(args []string) error {
 			rep.Count(fmt.Sprint("fixed", v, l), true, nil)
 		}
 	}
+	rep.Extra["nalu_parses_judged"] = c17NaluJudged
 	rep.Done()
 	return err
 }
